@@ -6,6 +6,7 @@ import (
 	"fmt"
 	"go/ast"
 	"go/types"
+	"sort"
 	"strings"
 )
 
@@ -23,6 +24,7 @@ func rulesC16(c *Ctx) {
 	ruleResolvedSnapshots(c)
 	ruleResolvedCalls(c)
 	ruleServerRegistersHooks(c)
+	ruleHookWriters(c)
 	ruleOptionProbes(c, "server", 5) // the hook options are found by their own probes
 	ruleServerWiring(c, []string{"WithPostChangeRIBHook", "WithRIBResolvedEntryHook", "WithVRFs"})
 }
@@ -391,4 +393,53 @@ func typeSwitchVar(fi *FuncInfo) string {
 		return true
 	})
 	return name
+}
+
+// HOOK-WRITERS — the hook a holder notifies is the one the consumer registered, from registration on: the
+// hook fields are stored only by the registration functions (SetPostChangeHook for the RIB and its existing
+// holders, AddNetworkInstance for a later holder, SetResolvedEntryHook). Code that swaps a hook temporarily
+// — to queue, batch or silence notifications — changes when (or whether) the consumer hears of a change
+// relative to the change itself; a notification delivered after the lock that ordered the change has been
+// released can be overtaken by the notification of a later change to the same key.
+func ruleHookWriters(c *Ctx) {
+	const rule = "HOOK-WRITERS"
+	allowed := map[string][]string{
+		"RIBHolder.postChangeHook": {"SetPostChangeHook", "AddNetworkInstance"},
+		"RIB.postChangeHook":       {"SetPostChangeHook"},
+		"RIB.resolvedEntryHook":    {"SetResolvedEntryHook"},
+	}
+	for _, t := range [][2]string{{"RIBHolder", "postChangeHook"}, {"RIB", "postChangeHook"}, {"RIB", "resolvedEntryHook"}} {
+		fv := c.P.Field("rib", t[0], t[1])
+		if fv == nil {
+			c.vanished(rule, "rib."+t[0], t[1], "hook field not found")
+			continue
+		}
+		c.P.fieldWriteOnce(fv) // fills the store index
+		var bad, writers []string
+		for _, st := range c.P.fieldStores[fv] {
+			c.Sites++
+			d := declaredOf(st.Parent())
+			nm := "?"
+			if d != nil {
+				nm = d.Name()
+			}
+			ok := false
+			for _, a := range allowed[t[0]+"."+t[1]] {
+				if a == nm {
+					ok = true
+				}
+			}
+			writers = append(writers, nm)
+			if !ok {
+				bad = append(bad, fmt.Sprintf("%s (%s)", nm, c.P.pos(st.Pos())))
+			}
+		}
+		sort.Strings(writers)
+		if len(writers) == 0 {
+			c.vanished(rule, "rib."+t[0], t[1], "the hook field is never stored")
+			continue
+		}
+		c.check(len(bad) == 0, rule, "rib."+t[0], "writers of "+t[1], "-", "stored only by "+strings.Join(writers, ", "),
+			"the hook field "+t[0]+"."+t[1]+" is also stored by "+strings.Join(bad, ", ")+": a hook swapped outside registration changes when or whether the consumer is told of a change (a notification deferred past the lock that ordered the change can be overtaken by a later one for the same key)")
+	}
 }
